@@ -1,7 +1,7 @@
 """C08 -- chunk files are deleted only when obsolete and durably purged, oldest first (R08.1 .. R08.6)."""
 import re
 
-from engine import (cmatch, cpath, expr_s, norm_learn, run_monitor, path_to, describe_path, strip_ids, OKV, ERRV,
+from engine import (cmatch, cpath, expr_s, norm_learn, run_monitor, path_to, describe_path, strip_ids, OKV, ERRV, finals,
                     contains, smallest_loop)
 from helpers import *
 import c04
@@ -219,6 +219,25 @@ def r08_2(ctx, rep):
                       path=describe_path(P, [k[0] for k in path_to(seen, bad)]))
     else:
         rep.ok("R08.2", "Op(flush) Ok returns", "non-empty removed_chunks => RemoveChunks sent", where=g.where(g.entry))
+    # positive form (liveness of removal): every Ok return has established that nothing is left scheduled
+    def step_c(ms, pi, qi, learn):
+        for o, v in norm_learn(learn):
+            cn = origin_call(o)
+            if cn in empties and v == "true":
+                ms = True
+            if cn in rset and v in OKV:
+                ms = True
+        return ms
+    seen_c = run_monitor(P, False, step_c)
+    bad_c = next(((pi, ms) for (pi, ms) in seen_c if P.gnode(pi) in g.exits and not ms and not exit_is_err(P, pi)), None)
+    if bad_c:
+        rep.violation("R08.2", "flush|ok-return-without-emptying-the-removal-list", "Op(flush) Ok return",
+                      "flush can return Ok without having established that removed_chunks is empty or having sent the whole list to the "
+                      "worker: files scheduled by a purge can stay on disk although the purge was flushed and the worker is idle",
+                      where=g.where(P.gnode(bad_c[0])), path=describe_path(P, [k[0] for k in path_to(seen_c, bad_c)]))
+    else:
+        rep.ok("R08.2", "Op(flush) Ok returns (positive form)", "every Ok return follows `removed_chunks.is_empty()` or a sent RemoveChunks "
+               "carrying the drained list", where=g.where(g.entry))
 
     # who mutates removed_chunks, over all public write entries
     for key2 in ctx.write_entries():
@@ -279,6 +298,45 @@ def r08_4(ctx, rep):
     pushes = [n for n in P.calls(r"Vec::<T, A>::push$") if REMOVED(event_args(g, n)[0])]
     pset = set(pop_first)
     popset_any = set(pops)
+
+    peeks = set(n for n in P.calls(r"BTreeMap::<K, V, A>::first_key_value$") if CLOSED(event_args(g, n)[0]))
+    opp = {"true": "false", "false": "true"}
+
+    def stop_fact(cn, v):
+        # the negation of the pop guard: first.state.last > upto
+        return v in opp and guard_fact(cn, opp[v])
+
+    def step_stop(ms, pi, qi, learn):
+        applied, stopped = ms
+        n = P.gnode(pi)
+        if n in popset_any:
+            stopped = False
+        for f in outs:
+            if f(pi, qi, learn) == "ok":
+                applied = True
+                stopped = False
+        for o, v in norm_learn(learn):
+            cn = origin_call(o)
+            if cn in peeks and v == "None":
+                stopped = True
+            if cn in cmps and stop_fact(cn, v):
+                stopped = True
+        return (applied, stopped)
+    seen_stop = run_monitor(P, (False, False), step_stop)
+    bad_stop = None
+    for (pi, ms0, ms) in finals(P, seen_stop, step_stop):
+        if P.gnode(pi) in g.exits and ms[0] and not ms[1] and not exit_is_err(P, pi):
+            bad_stop = (pi, ms0)
+            break
+    if bad_stop:
+        rep.violation("R08.4", "purge|returns-before-all-obsolete-chunks-are-scheduled", "Op(purge) Ok return",
+                      "after the purge record was applied, purge can return Ok without having established that no closed chunk is left "
+                      "(first_key_value() == None) or that the oldest one still holds entries above the purge point (last > upto): obsolete "
+                      "chunk files stay on disk although the purge was flushed and the worker is idle",
+                      where=g.where(P.gnode(bad_stop[0])), path=describe_path(P, [k[0] for k in path_to(seen_stop, bad_stop)]))
+    else:
+        rep.ok("R08.4", "purge selects every obsolete closed chunk", "every Ok return after the purge record follows `closed is empty` or "
+               "`first.state.last > upto`, evaluated since the last pop", where=g.where(g.entry))
 
     def step(ms, pi, qi, learn):
         applied, guarded, pending = ms
